@@ -26,7 +26,7 @@ def seed_file(tier, seed, k):
         sel = (sel & ~3) | (0 if lp else 1)
         if rnd.random() < 0.75:
             for _ in range(rnd.choice([1, 1, 2])):
-                text = mutate.mutate(text, rnd)
+                text = mutate.semantic_error(text, "LP" if lp else "MPS", rnd) if rnd.random() < 0.2 else mutate.mutate(text, rnd)
     data = mutate.to_bytes(text)[:65000]
     return bytes([sel]) + data
 
